@@ -26,7 +26,9 @@ ALPHA = ["a", "A", "a b", "a_", "a__1", "a__1_", "sum", "T", "class", "", None, 
          # letters whose case mapping is unusual: U+0130 lower-cases to 'i' + a combining dot, U+017F / U+0131 match [a-z] under re.IGNORECASE
          "\u0130stanbul", "\u017fum", "\u0131", "\u0130", "i",
          # look-alikes of generated accessors with leading zeros / huge indices / signs
-         "a__01", "a__007", "a__00", "a__10"]
+         "a__01", "a__007", "a__00", "a__10",
+         # names of public classmethods / less used methods
+         "new", "NEW", "peek", "alias", "rename"]
 ALPHA_H = ["a", "A", "a b", "sum", None, "col0_"]
 
 
